@@ -85,14 +85,16 @@ def _request(kind):
         return c("protocol_contacts.protocolentities.iq_sync_get.GetSyncIqProtocolEntity")(["4915901234567"]), \
             lambda: [N("sync", {"index": "0", "last": "true", "version": "1", "sid": "123"}, [N("in", {}, [N("user", {"jid": J}, None, b"4915901234567")])])]
     if kind == "media-upload":
-        return c("protocol_media.protocolentities.iq_requestupload.RequestUploadIqProtocolEntity")("image", "hash", "123"), lambda: [N("media", {"url": "https://mmg/x", "ip": "1.2.3.4"})]
+        return c("protocol_media.protocolentities.iq_requestupload.RequestUploadIqProtocolEntity")("image", "hash", "123"), lambda: [N("encr_media", {"url": "https://mmg/x", "ip": "1.2.3.4"})]
+    if kind == "media-upload-duplicate":          # the server already has the file: the other documented form of the answer
+        return c("protocol_media.protocolentities.iq_requestupload.RequestUploadIqProtocolEntity")("image", "hash", "123"), lambda: [N("duplicate", {"url": "https://mmg/x"})]
     if kind == "group-participants-list":
         return c("protocol_groups.protocolentities.iq_groups_participants.ParticipantsGroupsIqProtocolEntity")(G, [J], "add"), lambda: [N("participant", {"jid": J})]
     raise ValueError(kind)
 
 
 KINDS = ("ping", "lastseen", "picture-get", "statuses-get", "status-set", "privacy-get", "groups-list", "group-info", "group-create", "group-leave",
-         "group-participants", "group-promote", "group-subject", "contact-sync", "media-upload", "group-participants-list")
+         "group-participants", "group-promote", "group-subject", "contact-sync", "media-upload", "media-upload-duplicate", "group-participants-list")
 
 
 def _reply(rid, rtype_is_result, body, xmlns=None):
